@@ -35,6 +35,16 @@ struct Kind {
     /// compare the bytes of this step too (false for multi-record entries written to a failing
     /// writer: which record comes first is not defined, so only the decision is compared)
     compare_bytes: bool,
+    /// how a sampling formatter is called for this step: its configured rate, the unsampled
+    /// `Format::format` route of the same formatter, or another rate
+    mode: Mode,
+}
+
+#[derive(Clone, Copy, PartialEq)]
+enum Mode {
+    Configured,
+    Bypass,
+    Rate(f32),
 }
 
 fn kinds(cfg: &CfgD) -> Vec<Kind> {
@@ -75,9 +85,22 @@ fn kinds(cfg: &CfgD) -> Vec<Kind> {
     let large = valid(vec![(s("Big"), ValD::Str("x".repeat(1_300_000))), (s("M"), m(vec![Obs::U(7), Obs::U(8)], vec![]))]);
     let err_val = valid(vec![(s("M"), ValD::Error(s("value error")))]);
     let dist = valid(vec![(s("M"), m(vec![Obs::U(7), Obs::F(2.5), Obs::R(9.0, 3)], vec![])), (s("S"), ValD::Str(s("q\"")))]);
-    let k = |name, entry, fail_after| Kind { name, entry, fail_after, compare_bytes: true };
-    let kd = |name, entry, fail_after| Kind { name, entry, fail_after, compare_bytes: false };
-    vec![
+    let k = |name, entry, fail_after| Kind { name, entry, fail_after, compare_bytes: true, mode: Mode::Configured };
+    let kd = |name, entry, fail_after| Kind { name, entry, fail_after, compare_bytes: false, mode: Mode::Configured };
+    let km = |name, entry, mode| Kind { name, entry, fail_after: None, compare_bytes: true, mode };
+    let mut extra = Vec::new();
+    if cfg.mult != Mult::None {
+        // one sampling formatter called through both of its routes and at several rates
+        extra.extend([
+            km("unsampled-route-scalar", scalar.clone(), Mode::Bypass),
+            km("unsampled-route-distribution", dist.clone(), Mode::Bypass),
+            km("unsampled-route-split", split2.clone(), Mode::Bypass),
+            km("rate-one-distribution", dist.clone(), Mode::Rate(1.0)),
+            km("rate-quarter-distribution", dist.clone(), Mode::Rate(0.25)),
+            km("rate-tiny-scalar", scalar.clone(), Mode::Rate(f32::from_bits(0x1c80_0000))),
+        ]);
+    }
+    let mut v = vec![
         k("valid-scalar", scalar.clone(), None),
         k("valid-distribution", dist.clone(), None),
         k("defect-duplicate-name", dup, None),
@@ -100,7 +123,9 @@ fn kinds(cfg: &CfgD) -> Vec<Kind> {
         k("value-error", err_val, None),
         k("io-failure-at-0", scalar.clone(), Some(0)),
         k("io-failure-mid-record", dist, Some(60)),
-    ]
+    ];
+    v.extend(extra);
+    v
 }
 
 fn c14_configs() -> Vec<CfgD> {
@@ -122,15 +147,22 @@ fn c14_configs() -> Vec<CfgD> {
 type Obsv = (String, Vec<Vec<u8>>);
 
 fn step(r: &mut Runner, k: &Kind) -> Obsv {
+    fn call(r: &mut Runner, k: &Kind, w: &mut impl io::Write) -> Outcome {
+        match k.mode {
+            Mode::Configured => r.format(&k.entry, w),
+            Mode::Bypass => r.format_in_mode(&k.entry, w, None),
+            Mode::Rate(rate) => r.format_in_mode(&k.entry, w, Some(rate)),
+        }
+    }
     let (outcome, bytes) = match k.fail_after {
         None => {
             let mut out = Vec::new();
-            let o = r.format(&k.entry, &mut out);
+            let o = call(r, k, &mut out);
             (o, out)
         }
         Some(limit) => {
             let mut w = FailAfter { limit, got: Vec::new() };
-            let o = r.format(&k.entry, &mut w);
+            let o = call(r, k, &mut w);
             (o, w.got)
         }
     };
@@ -155,7 +187,7 @@ fn main() {
     let mut nkinds = 0;
     for (ci, cfg) in cfgs.iter().enumerate() {
         let ks = kinds(cfg);
-        nkinds = ks.len();
+        nkinds = nkinds.max(ks.len());
         let pristine = cfg.build();
         // reference observation of each kind on a fresh formatter
         let fresh: Vec<Obsv> = ks.iter().map(|k| step(&mut Runner::from_emf(pristine.clone(), cfg.mult), k)).collect();
@@ -221,6 +253,7 @@ fn main() {
     rep.set("configurations", cfgs.len() as u64);
     rep.set("explanation", "every sequence of entry kinds up to the depth is fed to ONE long-lived real formatter (a state = the history); after the last step its decision and records (multiset of lines) must equal those of a fresh formatter with the same configuration on the same entry");
     rep.sample(json!({"history": ["large-1.3MB", "defect-duplicate-name", "io-failure-mid-record"], "then": "split-two-sets", "expect": "same records as fresh"}));
+    rep.assume("the sampling configuration also calls its formatter through the unsampled Format::format route and at rates 1, 1/4 and 2^-70 (constant random source, so the weight of a step is a function of its rate)");
     rep.assume("every entry kind carries its own timestamp, so outputs are deterministic");
     rep.assume("split records come out of a hash map: compared as a multiset of lines");
     rep.finish();
